@@ -152,3 +152,69 @@ func TestC11Matrix(t *testing.T) {
 	}
 	inst.CountN("C11", "matrix-aggregate-calls", calls)
 }
+
+// TestC11ManyChunks: members with far more chunks than any worker count or channel capacity (more than a
+// thousand), on sparse keys, together with small members - every aggregate and a spread of worker counts.
+func TestC11ManyChunks(t *testing.T) {
+	shard, _ := strconv.Atoi(os.Getenv("VERIF_SHARD"))
+	if shard != 0 {
+		return
+	}
+	mk := func(keys []int, low uint64) (*roaring.Bitmap, *model.Set) {
+		b, m := roaring.New(), model.New()
+		for _, k := range keys {
+			v := uint64(k)<<16 + low + uint64(k%5)
+			b.Add(uint32(v))
+			m.Add(v)
+		}
+		return b, m
+	}
+	var odd, even, third []int
+	for k := 0; k < 4200; k++ {
+		switch {
+		case k%2 == 1:
+			odd = append(odd, k)
+		case k%6 == 0:
+			third = append(third, k)
+		}
+		if k%2 == 0 && k < 2400 {
+			even = append(even, k)
+		}
+	}
+	bo, mo := mk(odd, 7)   // 2100 chunks on odd keys
+	be, me := mk(even, 7)  // 1200 chunks on even keys
+	bt, mt := mk(third, 9) // 700 chunks
+	bs, ms := mk([]int{0, 2, 4001, 65535}, 7)
+	bo2, mo2 := mk(odd[:1500], 7)
+	lists := [][]*member{
+		{{b: bo, m: mo}, {b: bs, m: ms}, {b: be, m: me}},
+		{{b: bs, m: ms}, {b: bo, m: mo}},
+		{{b: be, m: me}, {b: bt, m: mt}, {b: bo, m: mo}, {b: bs, m: ms}},
+		{{b: bo, m: mo}, {b: bo2, m: mo2}, {b: bo, m: mo}},
+	}
+	for li, ms := range lists {
+		for _, w := range []int{0, 1, 2, 3, 7, 16, 33} {
+			if d := live.Check(roaring.ParOr(w, bitmapsOf(ms)...), aggModel("or", ms)); d != "" {
+				t.Fatalf("ParOr(%d) over list #%d of many-chunk members: %s", w, li, d)
+			}
+			if d := live.Check(roaring.ParHeapOr(w, bitmapsOf(ms)...), aggModel("or", ms)); d != "" {
+				t.Fatalf("ParHeapOr(%d) over list #%d of many-chunk members: %s", w, li, d)
+			}
+			if d := live.Check(roaring.ParAnd(w, bitmapsOf(ms)...), aggModel("and", ms)); d != "" {
+				t.Fatalf("ParAnd(%d) over list #%d of many-chunk members: %s", w, li, d)
+			}
+		}
+		if d := live.Check(roaring.FastOr(bitmapsOf(ms)...), aggModel("or", ms)); d != "" {
+			t.Fatalf("FastOr over list #%d of many-chunk members: %s", li, d)
+		}
+		if d := live.Check(roaring.HeapXor(bitmapsOf(ms)...), aggModel("xor", ms)); d != "" {
+			t.Fatalf("HeapXor over list #%d of many-chunk members: %s", li, d)
+		}
+		for i, x := range ms {
+			if d := live.Check(x.b, x.m); d != "" {
+				t.Fatalf("member #%d of many-chunk list #%d changed: %s", i, li, d)
+			}
+		}
+		inst.Case("C11", true, fmt.Sprintf("many-chunk list #%d x 7 worker counts x 3 parallel aggregates", li))
+	}
+}
